@@ -231,6 +231,46 @@ def register(reg):
                  ghost_calls={"_SpatialIndex__addSegment": {"A0": "A0", "B0": "B0", "S0": "S0"}}))
 
 
+    # ---------------------------------------------------------------- track query: request(track)
+    # every datum registered in the cell of any point of any segment of the query track is returned.  Ghost D0 = the
+    # datum, (A0, B0) = the cell, K0 / S0 = the segment and the parameter of the point (all arbitrary).
+    # __addCellValuesInTAB appends to the caller's list: it is inlined, the final list is written back (Python aliasing).
+    INTAB = "any(TAB[q_] == %s for q_ in range(0, len(TAB)))"
+    reg.add(Spec(SI + "_SpatialIndex__addCellValuesInTAB", dict(self="SpatialIndex", TAB="list[int]", cell="tuple[int,int]"), "none", inline=True,
+                 locals=dict(TAB_IN="list[int]"),
+                 at={"values = self.request(cell[0], cell[1])": ["ghost TAB_IN = TAB"]},
+                 loops={"1": LoopSpec(inv=["len(TAB) >= len(TAB_IN) and all(TAB[q_] == TAB_IN[q_] for q_ in range(0, len(TAB_IN)))",
+                                           "all(%s for r_ in range(0, _k))" % (INTAB % "values[r_]")])}))
+    reg.add(Spec(SI + "request", dict(self="SpatialIndex", obj="Track"), "list[int]",
+                 ghost=dict(K0="int", S0="real", A0="int", B0="int", D0="int"),
+                 requires=WF + GWF + EXACT + [INSIDE_ALL.replace("track", "obj")], locals=dict(TAB="list[int]"),
+                 at={"coord2 = self.__getCell(pos2)": [
+                         "use div_cancel(%s, self.dX, X(obj, i - 1) - self.xmin, 1)" % (GXk % "i - 1").replace("track", "obj"),
+                         "use div_cancel(%s, self.dX, X(obj, i) - self.xmin, 1)" % (GXk % "i").replace("track", "obj"),
+                         "use div_cancel(%s, self.dY, Y(obj, i - 1) - self.ymin, 1)" % (GYk % "i - 1").replace("track", "obj"),
+                         "use div_cancel(%s, self.dY, Y(obj, i) - self.ymin, 1)" % (GYk % "i").replace("track", "obj"),
+                         "use div_cancel(%s, self.dX, X(obj, K0) + S0 * (X(obj, K0 + 1) - X(obj, K0)) - self.xmin, 1)" % PGX.replace("track", "obj"),
+                         "use div_cancel(%s, self.dY, Y(obj, K0) + S0 * (Y(obj, K0 + 1) - Y(obj, K0)) - self.ymin, 1)" % PGY.replace("track", "obj"),
+                         ("first-end-in-grid-units", "coord1 is not None and coord1[0] * self.dX == X(obj, i - 1) - self.xmin and coord1[1] * self.dY == Y(obj, i - 1) - self.ymin"),
+                         ("second-end-in-grid-units", "coord2 is not None and coord2[0] * self.dX == X(obj, i) - self.xmin and coord2[1] * self.dY == Y(obj, i) - self.ymin"),
+                         "use distrib(coord1[0] + S0 * (coord2[0] - coord1[0]), %s, self.dX)" % PGX.replace("track", "obj"),
+                         "use distrib(coord1[1] + S0 * (coord2[1] - coord1[1]), %s, self.dY)" % PGY.replace("track", "obj"),
+                         ("same-point-in-grid-units-x", "implies(i - 1 == K0, (coord1[0] + S0 * (coord2[0] - coord1[0])) * self.dX == %s * self.dX)" % PGX.replace("track", "obj")),
+                         ("same-point-in-grid-units-y", "implies(i - 1 == K0, (coord1[1] + S0 * (coord2[1] - coord1[1])) * self.dY == %s * self.dY)" % PGY.replace("track", "obj")),
+                         "use mul_cancel(self.dX, coord1[0] + S0 * (coord2[0] - coord1[0]), %s)" % PGX.replace("track", "obj"),
+                         "use mul_cancel(self.dY, coord1[1] + S0 * (coord2[1] - coord1[1]), %s)" % PGY.replace("track", "obj"),
+                         ("affine-map-commutes-with-interpolation",
+                          "implies(i - 1 == K0, coord1[0] + S0 * (coord2[0] - coord1[0]) == %s and coord1[1] + S0 * (coord2[1] - coord1[1]) == %s)"
+                          % (PGX.replace("track", "obj"), PGY.replace("track", "obj")))]},
+                 loops={"2": LoopSpec(inv=["(i == 0 and pos1 is None) or (i > 0 and pos1 is not None and pos1 is obs(obj, i - 1).position)",
+                                           "implies(%s and K0 + 1 < i and %s, %s)" % (GHG.replace("track", "obj"), IN("D0", "A0", "B0"), INTAB % "D0")]),
+                        "2.1": LoopSpec(inv=["implies(%s and K0 + 1 < i and %s, %s)" % (GHG.replace("track", "obj"), IN("D0", "A0", "B0"), INTAB % "D0"),
+                                             "implies(any(CELLS[q] == (A0, B0) for q in range(0, _k)) and %s, %s)" % (IN("D0", "A0", "B0"), INTAB % "D0")])},
+                 ghost_calls={"_SpatialIndex__cellsCrossSegment": {"A0": "A0", "B0": "B0", "S0": "S0"}},
+                 ensures=[("every-datum-of-the-cell-of-every-point-of-every-segment-is-returned",
+                           "implies(%s and %s, any(result[q_] == D0 for q_ in range(0, len(result))))" % (GHG.replace("track", "obj"), IN("D0", "A0", "B0")))]),
+            variant="track")
+
     # ---------------------------------------------------------------- neighbourhood query (unit given)
     NEAR = "(0 <= A0 and A0 < self.csize and 0 <= B0 and B0 < self.lsize and %s - unit <= A0 and A0 <= %s + unit and %s - unit <= B0 and B0 <= %s + unit)"
     FALSE_LOOPS = {k: LoopSpec(inv=["False"]) for k in ("2", "2.1", "3", "3.1", "4", "4.1", "4.2", "4.2.1", "5", "5.1")}
@@ -276,7 +316,9 @@ def lemmas(reg):
 
 
 USES_LIB = True
-FUNCTIONS = [G + "isSegmentIntersects", SI + "_SpatialIndex__cellsCrossSegment", SI + "neighborhood", SI + "neighborhood@coord", SI + "_SpatialIndex__addSegment", SI + "request", SI + "request@coord",
+FUNCTIONS = [G + "isSegmentIntersects", SI + "_SpatialIndex__cellsCrossSegment", SI + "neighborhood", SI + "neighborhood@coord", SI + "_SpatialIndex__addSegment", SI + "request", SI + "request@coord", SI + "request@track",
              SI + "addFeature", SI + "groundDistanceToUnits", SI + "_SpatialIndex__getCell", SI + "_SpatialIndex__neighboringcells"]
 ASSUMPTIONS = ["grid geometry: dX, dY > 0, at least one cell per axis, positive extent",
+               "request(track): the query track lies inside the indexed extent; __addCellValuesInTAB is inlined and its in-place append is written "
+               "back to the caller's list (aliasing made explicit)",
                "positions are ENUCoords with non-NaN coordinates"]
